@@ -36,6 +36,8 @@ pub struct FnCtx {
     pub closures: Vec<HashMap<String, Vec<Node>>>,
     pub loops: Vec<LoopFrame>,
     pub closure_pub_params: HashMap<String, Vec<bool>>,
+    /// immutable `let x = [a, b, ..];` bindings: x is an array of that (syntactic) length
+    pub array_lits: HashMap<BindId, usize>,
     /// >0 while inside a loop / closure body (a `return`/`break`/`continue` there is an exit)
     pub depth_loop: u32,
     /// >0 while inside code controlled by a secret (arms of rejected / one-hot branches, secret loops)
